@@ -161,9 +161,12 @@ class Bits:
         if offset is not None:
             raise bitstring.CreationError(f"offset cannot be used when initialising with '{k}'.")
         try:
-            Dtype(k, length).set_fn(self, v)
+            d = Dtype(k, length)
+            d.set_fn(self, v)
         except ValueError as e:
             raise bitstring.CreationError(e)
+        if length is not None and d.bitlength is not None and len(self) != d.bitlength:
+            raise bitstring.CreationError(f"The value given for '{k}' has a length of {len(self)} bits, but a length of {d.bitlength} bits was specified.")
 
     def __getattr__(self, attribute: str) -> Any:
         # Support for arbitrary attributes like u16 or f64.
